@@ -415,6 +415,7 @@ def run_property(prop, tier="quick", seed=0, only=None, extra=None):
                 lemma_viol.append((full, rf))
     # classify violations: replay, known findings
     exit_code = 0
+    known_obs = []
     deviations = []
     lines = []
     reported = set()
@@ -442,6 +443,8 @@ def run_property(prop, tier="quick", seed=0, only=None, extra=None):
                                   "witness": ob.get("witness"), "expects": ob.get("expects"), "replay": rep, "notes": ob.get("notes"), "meta": ob.get("meta")}, indent=1, default=str))
         if kf is not None:
             known_hits.append((kf, full))
+            n_ob -= 1   # obligations failing exactly on a listed known finding are reported under known_findings, not as proof obligations
+            known_obs.append(full)
             continue
         if rep and rep.get("driver_error"):
             errors.append((c.name, "replay driver error: " + json.dumps(rep)[:1500]))
@@ -524,6 +527,7 @@ def run_property(prop, tier="quick", seed=0, only=None, extra=None):
             "lemmas": lemma_recs,
             "undecided": [f"{a}: {b}" for a, b in undecided][:50],
             "known_findings_hit": sorted(seen_k),
+            "obligations_failing_on_known_findings": sorted(set(known_obs)),
             "pinned_deviations": deviations,
             "extraction_drops": "type annotations, docstrings, comments, logger.* calls (modelled as no-ops)",
         },
